@@ -8,8 +8,9 @@
     - [fcache_never_busy_when_balanced], [fcache_balanced_history]: BUSY needs a
       sub-cache whose slots are all referenced;
     - [fcache_refs_balanced], [fcache_failed_get_chunk_balanced]: references and
-      allocations are returned, unless an mmap failed
-      ([fcache_mmap_failure_leaks_ref], [fcache_mmap_failure_is_sticky]);
+      allocations are returned, also when an mmap fails (the [_strong] forms
+      drop the "no mmap failed" hypothesis of the first statements;
+      [fcache_mmap_failure_releases_ref], [fcache_mmap_failure_is_sticky]);
     - [fcache_no_crash]: fuel [len + 1] suffices, no entry is written outside
       the arrays, no SIGBUS;
     - [fcache_unrepaired_sigbus]: the unrepaired code ([clamp_eof = false]) does
@@ -458,6 +459,26 @@ Section StoreFacts.
     apply NoDup_snoc; assumption.
   Qed.
 
+  Lemma rcl_snoc0 k k' c es :
+    ~ In k (keys es) -> rcl k' (es ++ [mkEntry k c 0]) = rcl k' es.
+  Proof.
+    unfold rcl. induction es as [|a es IH]; cbn [keys map In app lookup e_key]; intro Hn.
+    - destruct (k =? k'); reflexivity.
+    - destruct (N.eqb_spec (e_key a) k') as [E|E]; [reflexivity|]. apply IH. tauto.
+  Qed.
+
+  Lemma nrefl_snoc0 k c es : nrefl (es ++ [mkEntry k c 0]) = nrefl es.
+  Proof.
+    unfold nrefl. rewrite filter_app. cbn [filter referenced e_ref N.ltb N.compare].
+    now rewrite app_nil_r.
+  Qed.
+
+  Lemma NoDup_snoc_entry k c r es :
+    NoDup (keys es) -> ~ In k (keys es) -> NoDup (keys (es ++ [mkEntry k c r])).
+  Proof.
+    intros Hn Hk. rewrite keys_app. cbn [keys map e_key]. apply NoDup_snoc; assumption.
+  Qed.
+
   (** put after a missed insert of the same key: the new entry is the one released *)
   Lemma decr_insert k c es :
     ~ In k (keys es) -> decr k (es ++ [mkEntry k c 1]) = es ++ [mkEntry k c 0].
@@ -857,7 +878,10 @@ Section Proofs.
       nref (st_mm st') <= nref (st_mm st) + 1
     | GErr ERR_NODATA => pceil <= pos /\ st_mm st' = st_mm st
     | GErr ERR_BUSY => s_cap (st_mm st) <= nref (st_mm st) /\ st_mm st' = st_mm st
-    | GErr ERR_SYSTEM => ~ mm_clean st \/ In true (o_mf (st_orc st))
+    | GErr ERR_SYSTEM =>
+      (~ mm_clean st \/ In true (o_mf (st_orc st))) /\
+      (forall k, refcount k (st_mm st') = refcount k (st_mm st)) /\
+      nref (st_mm st') = nref (st_mm st)
     | GErr OK => False
     end.
   Proof.
@@ -886,13 +910,16 @@ Section Proofs.
         * now apply mmap_found_good.
         * intro k. rewrite !refcount_rcl. sproj. rewrite <- Em0. now apply rcl_incr.
         * rewrite !nref_nrefl. sproj. rewrite <- Em0. apply nrefl_incr.
-      + injection H as <- <-.
+      + (* a cached MAP_FAILED: the reference is given back at once *)
+        injection H as <- <-.
         assert (Hnc : ~ mm_clean st).
         { intro Hcl. unfold mm_clean in Hcl. rewrite <- Em0, Forall_forall in Hcl.
           specialize (Hcl e Hin). congruence. }
+        unfold store_put. sproj. rewrite decr_incr.
         split; [|sproj; splits; auto].
-        apply (frame_trans _ _ _ F0). constructor; sproj; auto using orc_le_refl.
-        intro Hcl. exfalso. apply Hnc. unfold mm_clean. now rewrite <- Em0.
+        * apply (frame_trans _ _ _ F0). constructor; sproj; auto using orc_le_refl.
+        * intro k. rewrite !refcount_rcl. sproj. now rewrite Em0.
+        * rewrite !nref_nrefl. sproj. now rewrite Em0.
     - (* busy *)
       destruct Hc as [Hl Hb]. injection H as <- <-.
       split; [exact F0|]. rewrite <- Em0. splits; auto.
@@ -901,13 +928,16 @@ Section Proofs.
       destruct (pop_mf st0) as [failed st1] eqn:Epm.
       destruct (pop_mf_frame _ _ _ Epm) as (F1 & Em1 & Ef1 & Ep1 & El1 & Hbit).
       pose proof (lookup_none _ _ Hl) as Habs.
-      assert (Hw1 : forall c, wf (set_mm st1 (store_insert blk c (make_room ev (st_mm st0))))).
-      { intro c. apply wf_set_mm; [apply (fr_wf _ _ F1 Hwf0)|]. sproj. apply NoDup_insert.
-        - apply make_room_NoDup. apply Hwf0.
-        - now apply make_room_absent. }
-      assert (Fr : forall c, (c = MapFailed -> failed = true) ->
-                frame st (set_mm st1 (store_insert blk c (make_room ev (st_mm st0))))).
-      { intros c Hc. apply (frame_trans _ _ _ F0). constructor; sproj.
+      pose proof (make_room_absent ev _ _ Habs) as Habs'.
+      pose proof (make_room_NoDup ev _ (proj1 Hwf0)) as Hnd'.
+      assert (Hw1 : forall c rf, wf (set_mm st1 (mkStore (s_cap (st_mm st0))
+                     (s_ents (make_room ev (st_mm st0)) ++ [mkEntry blk c rf])))).
+      { intros c rf. apply wf_set_mm; [apply (fr_wf _ _ F1 Hwf0)|]. sproj.
+        now apply NoDup_snoc_entry. }
+      assert (Fr : forall c rf, (c = MapFailed -> failed = true) ->
+                frame st (set_mm st1 (mkStore (s_cap (st_mm st0))
+                     (s_ents (make_room ev (st_mm st0)) ++ [mkEntry blk c rf])))).
+      { intros c rf Hc. apply (frame_trans _ _ _ F0). constructor; sproj.
         - auto.
         - reflexivity.
         - now rewrite Ef1.
@@ -919,14 +949,21 @@ Section Proofs.
             * constructor; [reflexivity|constructor].
           + right. apply Hbit. now apply Hc. }
       destruct failed.
-      + injection H as <- <-. split; [apply Fr; auto|].
+      + (* MAP_FAILED is cached, unreferenced *)
+        injection H as <- <-. unfold store_put, store_insert. sproj.
+        rewrite decr_insert by exact Habs'.
+        split; [apply Fr; auto|].
         sproj. rewrite Ef1, Ep1, El1. splits; auto.
-        right. destruct (fr_orc _ _ F0) as (_ & S & _). eapply suffix_In; [exact S|].
-        now apply Hbit.
-      + injection H as <- <-. split; [apply Fr; discriminate|].
+        * right. destruct (fr_orc _ _ F0) as (_ & S & _). eapply suffix_In; [exact S|].
+          now apply Hbit.
+        * intro k. rewrite !refcount_rcl. sproj. rewrite rcl_snoc0 by exact Habs'.
+          rewrite make_room_rcl by apply Hwf0. now rewrite Em0.
+        * rewrite !nref_nrefl. sproj. rewrite nrefl_snoc0. unfold nrefl.
+          rewrite make_room_held. now rewrite Em0.
+      + injection H as <- <-. split; [apply (Fr MapOk 1); discriminate|].
         sproj. rewrite Ef1, Ep1, El1. splits; auto.
         * now apply mmap_found_good.
-        * intro k. rewrite !refcount_rcl. sproj. rewrite rcl_insert by now apply make_room_absent.
+        * intro k. rewrite !refcount_rcl. sproj. rewrite rcl_insert by exact Habs'.
           rewrite make_room_rcl by apply Hwf0. now rewrite Em0.
         * rewrite !nref_nrefl. sproj. rewrite nrefl_insert. unfold nrefl.
           rewrite make_room_held. rewrite Em0. lia.
@@ -1084,19 +1121,24 @@ Section Proofs.
       (forall k, rc w k st' = rc w k st + match r with GOk f => delta f w k | GErr _ => 0 end) /\
       nr w st' <= nr w st + match r with GOk f => dw f w | GErr _ => 0 end.
 
+  (** the mmap sub-cache holds the same references in both states *)
+  Definition mm_same_refs (st1 st : state) : Prop :=
+    (forall k, refcount k (st_mm st1) = refcount k (st_mm st)) /\
+    nref (st_mm st1) = nref (st_mm st).
+
   Lemma get_spec st pos r st' :
     get st pos = (r, st') -> wf st ->
     frame st st' /\ st_live st' = st_live st /\
     (st_policy st' = st_policy st \/ st_policy st = TRY_ONCE) /\
     get_status_ok st pos r /\
-    (quiet st -> get_refs_ok st r st').
+    get_refs_ok st r st'.
   Proof.
     unfold fcache_get. intros H Hwf.
     assert (Hread : forall st2 r st', get_read st2 pos = (r, st') -> wf st2 ->
               frame st st2 -> st_fb st2 = st_fb st -> st_live st2 = st_live st ->
               frame st st' /\ st_live st' = st_live st /\ st_policy st' = st_policy st2 /\
               (st_policy st <> ALWAYS -> get_status_ok st pos r) /\
-              (st_mm st2 = st_mm st -> get_refs_ok st r st')).
+              (mm_same_refs st2 st -> get_refs_ok st r st')).
     { clear H r st'. intros st2 r st' H W2 F2 Ef El.
       destruct (get_read_spec _ _ _ _ H W2) as (F & Ep' & Em' & El' & Hr).
       split; [eapply frame_trans; eauto|]. split; [congruence|]. split; [exact Ep'|].
@@ -1105,8 +1147,8 @@ Section Proofs.
       - intro Hna. unfold get_status_ok. destruct r as [f|[]]; try tauto.
         + right. right. eapply suffix_In; [exact S|]. apply Hr.
         + left. rewrite <- Ef. apply Hr.
-      - intros Em [|]; unfold rc, nr; rewrite ?Em', ?Em, <- ?Ef.
-        + split; [intro k|]; destruct r as [f|s]; try lia.
+      - intros [Emk Emn] [|]; unfold rc, nr; rewrite ?Em', <- ?Ef.
+        + split; [intro k; rewrite Emk|rewrite Emn]; destruct r as [f|s]; try lia.
           destruct Hr as (_ & Hw & _). unfold delta. rewrite Hw. cbn [same_w andb]. lia.
         + split; [intro k|]; destruct r as [f|[]]; try tauto.
           * destruct Hr as (_ & Hw & Hrc & _). unfold delta. rewrite Hw. cbn [same_w andb]. apply Hrc.
@@ -1126,7 +1168,7 @@ Section Proofs.
                 (s = ERR_BUSY -> s_cap (st_mm st) <= nref (st_mm st)) /\
                 (s = ERR_SYSTEM -> ~ mm_clean st \/ In true (o_mf (st_orc st))) /\
                 s <> OK /\
-                (quiet st -> st_mm st1 = st_mm st)
+                mm_same_refs st1 st
               end).
     { intros r1 st1 Em.
       destruct (get_mmap_spec _ _ _ _ Em Hwf) as (F & Ep & Ef & El & Hr).
@@ -1139,12 +1181,20 @@ Section Proofs.
         + intros ->. apply Hr.
         + intros ->. apply Hr.
         + intros ->. exact Hr.
-        + intros [Hcl Hnb]. destruct s; try tauto; apply Hr. }
+        + unfold mm_same_refs. destruct s; try tauto.
+          * destruct Hr as (_ & ->). split; reflexivity.
+          * destruct Hr as (_ & ->). split; reflexivity. }
+    assert (Hsame : forall s st1, mm_same_refs st1 st -> st_fb st1 = st_fb st ->
+                                  get_refs_ok st (GErr s) st1).
+    { intros s st1 [Hk Hn] Ef [|]; unfold rc, nr; rewrite ?Ef; split; intros;
+        rewrite ?Hk, ?Hn; lia. }
     destruct (st_policy st) eqn:Epol.
     - (* NEVER *)
       destruct (Hread st r st' H Hwf (frame_refl st) eq_refl eq_refl)
         as (F & El & Ep & Hs & Hrf).
-      splits; auto; try (left; congruence); try (now right). apply Hs. discriminate.
+      splits; auto; try (left; congruence); try (now right).
+      + apply Hs. discriminate.
+      + apply Hrf. split; reflexivity.
     - (* ALWAYS *)
       destruct (get_mmap st pos) as [r1 st1] eqn:Em.
       destruct (Hmm _ _ eq_refl) as (F & Ep & Ef & El & Hr).
@@ -1152,19 +1202,17 @@ Section Proofs.
       injection E as -> ->. splits; auto; try (left; congruence); try (now right).
       + unfold get_status_ok. destruct r1 as [f|s]; [apply Hr|].
         destruct Hr as (H1 & H2 & H3 & H4 & _). destruct s; tauto.
-      + intro Hq. destruct r1 as [f|s]; [apply Hr|].
-        destruct Hr as (_ & _ & _ & _ & Hsame). specialize (Hsame Hq).
-        intros [|]; unfold rc, nr; rewrite ?Ef, ?Hsame; split; intros; lia.
+      + destruct r1 as [f|s]; [apply Hr|]. apply Hsame; [apply Hr|exact Ef].
     - (* TRY *)
       destruct (get_mmap st pos) as [r1 st1] eqn:Em.
       destruct (Hmm _ _ eq_refl) as (F & Ep & Ef & El & Hr).
       destruct r1 as [f|s].
-      + injection H as <- <-. splits; auto; try (left; congruence); [apply Hr|intros _; apply Hr].
+      + injection H as <- <-. splits; auto; try (left; congruence); apply Hr.
       + destruct (Hread st1 r st' H (fr_wf _ _ F Hwf) F Ef El)
           as (F' & El' & Ep' & Hs & Hrf).
         splits; auto; try (left; congruence); try (now right).
         * apply Hs. discriminate.
-        * intro Hq. apply Hrf. now apply Hr.
+        * apply Hrf. apply Hr.
     - (* TRY_ONCE *)
       destruct (get_mmap st pos) as [r1 st1] eqn:Em.
       destruct (Hmm _ _ eq_refl) as (F & Ep & Ef & El & Hr).
@@ -1172,14 +1220,14 @@ Section Proofs.
       + injection H as <- <-. splits; auto; try (left; congruence); try (now right).
         * eapply frame_trans; [exact F|apply frame_set_policy].
         * apply Hr.
-        * intros _. destruct Hr as [_ Hr]. intros w. specialize (Hr w). exact Hr.
+        * destruct Hr as [_ Hr]. intros w. specialize (Hr w). exact Hr.
       + assert (F2 : frame st (set_policy st1 NEVER))
           by (eapply frame_trans; [exact F|apply frame_set_policy]).
         destruct (Hread (set_policy st1 NEVER) r st' H (fr_wf _ _ F2 Hwf) F2 Ef El)
           as (F' & El' & Ep' & Hs & Hrf).
         splits; auto; try (left; congruence); try (now right).
         * apply Hs. discriminate.
-        * intro Hq. apply Hrf. sproj. now apply Hr.
+        * apply Hrf. apply Hr.
   Qed.
 
   (** ** Operations *)
@@ -1200,8 +1248,7 @@ Section Proofs.
     | OK => False
     | ERR_NODATA => beyond /\ (st_policy st0 = ALWAYS \/ st_policy st0 = TRY_ONCE)
     | ERR_SYSTEM => excuse st0
-    | ERR_BUSY =>
-      quiet st0 -> capw FB st0 <= nr FB st0 + extra \/ capw MM st0 <= nr MM st0 + extra
+    | ERR_BUSY => capw FB st0 <= nr FB st0 + extra \/ capw MM st0 <= nr MM st0 + extra
     end.
 
   Lemma nr_ext st1 st2 :
@@ -1231,15 +1278,14 @@ Section Proofs.
     wf st0 -> wf st -> frame st0 st ->
     (st_policy st = st_policy st0 \/ st_policy st0 = TRY_ONCE) ->
     (pceil <= pos -> beyond) ->
-    (quiet st0 -> forall w, nr w st <= nr w st0 + extra) ->
+    (forall w, nr w st <= nr w st0 + extra) ->
     get_status_ok st pos (GErr s) -> op_err_ok st0 beyond extra s.
   Proof.
     intros W0 W F Hp Hb Hn H. unfold get_status_ok in H. destruct s; cbn [op_err_ok].
     - exact H.
     - eapply excuse_of_get; eauto.
     - destruct H as [Hpol Hpos]. split; [auto|]. destruct Hp as [Hp|Hp]; [left; congruence|now right].
-    - intro Hq. specialize (Hn Hq).
-      pose proof (fr_capm _ _ F) as Cm. pose proof (fr_capf _ _ F) as Cf.
+    - pose proof (fr_capm _ _ F) as Cm. pose proof (fr_capf _ _ F) as Cf.
       destruct H as [H|[_ H]].
       + left. specialize (Hn FB). unfold capw, nr in *. lia.
       + right. specialize (Hn MM). unfold capw, nr in *. lia.
@@ -1257,12 +1303,12 @@ Section Proofs.
   Lemma pread_loop_spec fuel : forall st pos len acc st0 r st',
     wf st0 -> frame st0 st ->
     (st_policy st = st_policy st0 \/ st_policy st0 = TRY_ONCE) ->
-    (quiet st0 -> forall w k, rc w k st = rc w k st0) ->
+    (forall w k, rc w k st = rc w k st0) ->
     (N.to_nat len < fuel)%nat ->
     pread_loop fuel st pos len acc = (r, st') ->
     frame st0 st' /\ st_live st' = st_live st /\
     (st_policy st' = st_policy st0 \/ st_policy st0 = TRY_ONCE) /\
-    (quiet st0 -> forall w k, rc w k st' = rc w k st0) /\
+    (forall w k, rc w k st' = rc w k st0) /\
     pread_result_ok st0 pos len acc r.
   Proof.
     induction fuel as [|fuel IH]; intros st pos len acc st0 r st' W0 F Hp Hrc Hfuel H; [lia|].
@@ -1293,16 +1339,16 @@ Section Proofs.
             by (unfold partlen; lia). exact Hres.
       + eapply frame_trans; eauto.
       + now rewrite Pp.
-      + intros Q w k. rewrite Rp. assert (Qs : quiet st) by (eapply frame_quiet; eauto).
-        destruct (Hq Qs w) as [Hk _]. rewrite Hk, Hrc by assumption. lia.
+      + intros w k. rewrite Rp.
+        destruct (Hq w) as [Hk _]. rewrite Hk, Hrc. lia.
       + unfold partlen. lia.
     - injection H as <- <-. splits; auto.
-      + intros Q w k. assert (Qs : quiet st) by (eapply frame_quiet; eauto).
-        destruct (Hq Qs w) as [Hk _]. rewrite Hk, Hrc by assumption. lia.
+      + intros w k.
+        destruct (Hq w) as [Hk _]. rewrite Hk, Hrc. lia.
       + cbn [pread_result_ok].
         apply get_err_ok with (st := st) (pos := pos); auto.
         * intro. lia.
-        * intros Q w. rewrite N.add_0_r. apply N.eq_le_incl. apply nr_ext; auto.
+        * intros w. rewrite N.add_0_r. apply N.eq_le_incl. apply nr_ext; auto.
   Qed.
 
   (** *** Chunks: auxiliary facts *)
@@ -1460,8 +1506,7 @@ Section Proofs.
       | NoCopy held =>
         views held = map Byte (slice pos0 (pos - pos0)) /\
         st_live st = Lpre + (if arr then 1 else 0) /\
-        (quiet st0 ->
-         (forall w k, rc w k st = rc w k st0 + hc held w k) /\
+        ((forall w k, rc w k st = rc w k st0 + hc held w k) /\
          (forall w, nr w st <= nr w st0 + N.of_nat (length held))) /\
         N.of_nat (length held) <= slots /\
         (remain = 0 \/
@@ -1469,7 +1514,7 @@ Section Proofs.
       | Copy buf =>
         buf = slice pos0 (pos - pos0) /\
         st_live st = Lpre + 1 /\
-        (quiet st0 -> forall w k, rc w k st = rc w k st0)
+        (forall w k, rc w k st = rc w k st0)
       end.
 
     Definition geometry_ok (c : chunk) : Prop :=
@@ -1488,11 +1533,11 @@ Section Proofs.
         ch_data c = map Byte (slice pos0 len0) /\ geometry_ok c /\
         st_policy (fcache_put_chunk st' c) = st_policy st' /\
         frame st' (fcache_put_chunk st' c) /\
-        (quiet st0 -> forall w k, rc w k (fcache_put_chunk st' c) = rc w k st0) /\
+        (forall w k, rc w k (fcache_put_chunk st' c) = rc w k st0) /\
         st_live (fcache_put_chunk st' c) = Lpre
       | ChErr s =>
         op_err_ok st0 (pceil < pos0 + len0) (slots - 1) s /\
-        (quiet st0 -> forall w k, rc w k st' = rc w k st0) /\
+        (forall w k, rc w k st' = rc w k st0) /\
         st_live st' = Lpre
       | _ => False
       end.
@@ -1525,10 +1570,10 @@ Section Proofs.
             * cbn [fcache_put_chunk ch_geom ch_held]. unfold free1. sproj. exact Pp.
             * cbn [fcache_put_chunk ch_geom ch_held]. unfold free1.
               eapply frame_trans; [exact Fp|apply set_live_spec].
-            * intros Q w k. cbn [fcache_put_chunk ch_geom ch_held]. unfold free1.
+            * intros w k. cbn [fcache_put_chunk ch_geom ch_held]. unfold free1.
               destruct (set_live_spec (put_all st held) (st_live (put_all st held) - 1))
                 as (_ & _ & _ & Hrc & _).
-              rewrite Hrc, Rp. destruct (Hq Q) as [Hk _]. rewrite Hk. lia.
+              rewrite Hrc, Rp. destruct Hq as [Hk _]. rewrite Hk. lia.
             * cbn [fcache_put_chunk ch_geom ch_held]. unfold free1. sproj. rewrite Lp, Hl. lia.
           + destruct (release_array_spec arr st) as (Fr & Pr & Or & Rr & Nr & Lr).
             destruct (put_all_spec (release_array arr st) held) as (Fp' & Pp' & Lp' & Op' & Rp' & Np').
@@ -1539,8 +1584,8 @@ Section Proofs.
             * unfold geometry_ok. cbn. split; [reflexivity|exact Hsmall].
             * cbn [fcache_put_chunk ch_geom ch_held]. exact Pp'.
             * cbn [fcache_put_chunk ch_geom ch_held]. exact Fp'.
-            * intros Q w k. cbn [fcache_put_chunk ch_geom ch_held].
-              rewrite Rp', Rr. destruct (Hq Q) as [Hk _]. rewrite Hk. lia.
+            * intros w k. cbn [fcache_put_chunk ch_geom ch_held].
+              rewrite Rp', Rr. destruct Hq as [Hk _]. rewrite Hk. lia.
             * cbn [fcache_put_chunk ch_geom ch_held]. rewrite Lp', Lr, Hl. destruct arr; lia.
         - destruct Hm as (-> & Hl & Hq).
           injection H as <- <-. unfold chunk_result_ok. splits.
@@ -1550,9 +1595,9 @@ Section Proofs.
           + reflexivity.
           + reflexivity.
           + cbn [fcache_put_chunk ch_geom]. apply set_live_spec.
-          + intros Q w k. cbn [fcache_put_chunk ch_geom]. unfold free1.
+          + intros w k. cbn [fcache_put_chunk ch_geom]. unfold free1.
             destruct (set_live_spec st (st_live st - 1)) as (_ & _ & _ & Hrc & _).
-            rewrite Hrc. now apply Hq.
+            rewrite Hrc. apply Hq.
           + cbn [fcache_put_chunk ch_geom]. unfold free1. sproj. lia. }
       (* one more entry is needed *)
       assert (Hrem' : 0 < remain) by lia.
@@ -1569,14 +1614,13 @@ Section Proofs.
       assert (Hp01 : st_policy st1 = st_policy st0 \/ st_policy st0 = TRY_ONCE).
       { destruct Hp1 as [E|E]; [rewrite E; exact Hp|].
         destruct Hp as [E'|E']; [right; congruence|now right]. }
-      assert (Qs : quiet st0 -> quiet st) by (intro; eapply frame_quiet; eauto).
       destruct g as [f0|s].
       2:{ (* the get failed *)
-        assert (Hnr : quiet st0 -> forall w, nr w st <= nr w st0 + (slots - 1)).
-        { intros Q w. destruct m as [held|buf]; cbn [mode_inv] in Hm.
-          - destruct Hm as (_ & _ & Hq & _). destruct (Hq Q) as [_ Hn]. specialize (Hn w).
+        assert (Hnr : forall w, nr w st <= nr w st0 + (slots - 1)).
+        { intros w. destruct m as [held|buf]; cbn [mode_inv] in Hm.
+          - destruct Hm as (_ & _ & Hq & _). destruct Hq as [_ Hn]. specialize (Hn w).
             apply N.leb_gt in Hguard. lia.
-          - destruct Hm as (_ & _ & Hq). rewrite (nr_ext st st0 W W0 (Hq Q) w). lia. }
+          - destruct Hm as (_ & _ & Hq). rewrite (nr_ext st st0 W W0 Hq w). lia. }
         assert (Herr : op_err_ok st0 (pceil < pos0 + len0) (slots - 1) s).
         { apply get_err_ok with (st := st) (pos := pos); auto. intro. lia. }
         destruct m as [held|buf]; cbn [mode_inv] in Hm.
@@ -1586,15 +1630,15 @@ Section Proofs.
           injection H as <- <-. unfold chunk_result_ok. splits; auto.
           + eapply frame_trans; [exact F01|]. eapply frame_trans; eauto.
           + now rewrite Pr, Pp.
-          + intros Q w k. rewrite Rr, Rp. destruct (Hq1 (Qs Q) w) as [Hk _]. rewrite Hk.
-            destruct (Hq Q) as [Hk0 _]. rewrite Hk0. lia.
+          + intros w k. rewrite Rr, Rp. destruct (Hq1 w) as [Hk _]. rewrite Hk.
+            destruct Hq as [Hk0 _]. rewrite Hk0. lia.
           + rewrite Lr, Lp, El1, Hl. destruct arr; lia.
         - destruct Hm as (_ & Hl & Hq).
           injection H as <- <-. unfold chunk_result_ok. splits; auto.
           + eapply frame_trans; [exact F01|apply set_live_spec].
-          + intros Q w k. unfold free1.
+          + intros w k. unfold free1.
             destruct (set_live_spec st1 (st_live st1 - 1)) as (_ & _ & _ & Hrc & _).
-            rewrite Hrc. destruct (Hq1 (Qs Q) w) as [Hk _]. rewrite Hk, Hq by assumption. lia.
+            rewrite Hrc. destruct (Hq1 w) as [Hk _]. rewrite Hk, Hq. lia.
           + unfold free1. sproj. rewrite El1, Hl. lia. }
       (* the get succeeded *)
       cbn [get_status_ok] in Hs.
@@ -1616,8 +1660,8 @@ Section Proofs.
         - cbn [mode_inv]. splits.
           + now rewrite slice_extend.
           + rewrite Lpf, El1. exact Hl.
-          + intros Q w k. rewrite Rpf, Td. destruct (Hq1 (Qs Q) w) as [Hk _].
-            rewrite Hk, Hq by assumption. lia. }
+          + intros w k. rewrite Rpf, Td. destruct (Hq1 w) as [Hk _].
+            rewrite Hk, Hq. lia. }
       destruct Hm as (Hv & Hl & Hq & Hsl & Hj).
       assert (Hslot1 : N.of_nat (length held) < slots) by (apply N.leb_gt in Hguard; exact Hguard).
       assert (Hadv : remain - l = 0 \/
@@ -1633,12 +1677,13 @@ Section Proofs.
         - rewrite views_app, Hv. unfold views. cbn [map concat]. rewrite app_nil_r, Tv.
           rewrite <- map_app. now rewrite slice_extend.
         - rewrite L2, El1. exact Hl.
-        - intro Q. destruct (Hq Q) as [Hk Hn]. split.
-          + intros w k. rewrite R2. destruct (Hq1 (Qs Q) w) as [Hk1 _].
-            rewrite Hk1, Hk, hc_app. cbn [hc]. rewrite Td. lia.
-          + intro w. rewrite N2. destruct (Hq1 (Qs Q) w) as [_ Hn1].
-            specialize (Hn w). rewrite app_length. cbn [length].
-            assert (dw f0 w <= 1) by (unfold dw; destruct (same_w _ _); lia). lia.
+        - destruct Hq as [Hk Hn].
+          intros w k. rewrite R2. destruct (Hq1 w) as [Hk1 _].
+          rewrite Hk1, Hk, hc_app. cbn [hc]. rewrite Td. lia.
+        - destruct Hq as [Hk Hn].
+          intro w. rewrite N2. destruct (Hq1 w) as [_ Hn1].
+          specialize (Hn w). rewrite app_length. cbn [length].
+          assert (dw f0 w <= 1) by (unfold dw; destruct (same_w _ _); lia). lia.
         - rewrite app_length. cbn [length]. lia.
         - exact Hadv. }
       destruct held as [|h0 ht].
@@ -1665,8 +1710,8 @@ Section Proofs.
         - rewrite Pr, Pp, Ep3, Ep2. exact Hp01.
         - cbn [op_err_ok]. right. unfold io_failure. right. right.
           destruct (fr_orc _ _ F02) as (_ & _ & _ & _ & S). eapply suffix_In; [exact S|]. now apply Hbit.
-        - intros Q w k. rewrite Rr, Rp, R3, R2. destruct (Hq1 (Qs Q) w) as [Hk1 _].
-          destruct (Hq Q) as [Hk _]. rewrite Hk1, Hk, hc_app. cbn [hc]. rewrite Td. lia.
+        - intros w k. rewrite Rr, Rp, R3, R2. destruct (Hq1 w) as [Hk1 _].
+          destruct Hq as [Hk _]. rewrite Hk1, Hk, hc_app. cbn [hc]. rewrite Td. lia.
         - rewrite Lr, Lp, El3, El2, El1, Hl. destruct arr; lia. }
       (* copy out *)
       assert (Hch : collect (views held) = Some (slice pos0 (pos - pos0)))
@@ -1685,8 +1730,8 @@ Section Proofs.
       - cbn [mode_inv]. splits.
         + now rewrite slice_extend.
         + rewrite Lq, Lr, Lp. unfold alloc1. sproj. rewrite El3, El2, El1, Hl. destruct arr; lia.
-        + intros Q w k. rewrite Rq, Rr, Rp, R4, R3, R2, Td. destruct (Hq1 (Qs Q) w) as [Hk1 _].
-          destruct (Hq Q) as [Hk _]. rewrite Hk1, Hk. lia.
+        + intros w k. rewrite Rq, Rr, Rp, R4, R3, R2, Td. destruct (Hq1 w) as [Hk1 _].
+          destruct Hq as [Hk _]. rewrite Hk1, Hk. lia.
     Qed.
   End ChunkLoop.
 
@@ -1717,8 +1762,7 @@ Section Proofs.
       + left. unfold mm_clean in *. now rewrite <- Em.
       + right. eapply io_failure_le; [apply (fr_orc _ _ F)|exact H].
     - now rewrite <- Ep.
-    - intro Q. specialize (H (frame_quiet _ _ F Q)).
-      unfold capw, nr in *. rewrite Em, Ef in H. lia.
+    - unfold capw, nr in *. rewrite Em, Ef in H. lia.
   Qed.
 
   Definition TWO63 : N := 2 ^ 63.
@@ -1747,11 +1791,11 @@ Section Proofs.
     match r with
     | ChOk c =>
       ch_data c = map Byte (slice pos len) /\
-      (quiet st -> forall w k, rc w k (fcache_put_chunk st' c) = rc w k st) /\
+      (forall w k, rc w k (fcache_put_chunk st' c) = rc w k st) /\
       st_live (fcache_put_chunk st' c) = st_live st
     | ChErr s =>
       chunk_err_ok st pos len s /\
-      (quiet st -> forall w k, rc w k st' = rc w k st) /\
+      (forall w k, rc w k st' = rc w k st) /\
       st_live st' = st_live st
     | _ => False
     end.
@@ -1783,23 +1827,23 @@ Section Proofs.
         cbn [mode_inv]. splits.
         - rewrite N.sub_diag. reflexivity.
         - unfold alloc1. sproj. lia.
-        - intros _. split; intros; cbn [hc length]; lia.
+        - intros; cbn [hc length]; lia.
+        - intros; cbn [hc length]; lia.
         - cbn [length]. lia.
         - right. cbn [length]. lia. }
       destruct L as (F' & Hp' & L).
       assert (Ep2 : st_policy (alloc1 st1) = st_policy st) by (rewrite P2; exact Ep1).
-      assert (Q2 : quiet st -> quiet (alloc1 st1)) by (intro; eapply frame_quiet; eauto).
       assert (Rc : forall w k, rc w k (alloc1 st1) = rc w k st) by (intros; now rewrite R2, R1).
       split; [eapply frame_trans; eauto|]. split; [now rewrite <- Ep2|].
       destruct r as [c|s| | |]; try contradiction.
       + destruct L as (Hd & _ & _ & _ & Hrc & Hl). splits; auto.
-        intros Q w k. rewrite Hrc by auto. apply Rc.
+        intros w k. rewrite Hrc. apply Rc.
       + destruct L as (He & Hrc & Hl). splits; auto.
         * right. eapply op_err_ok_transfer; [exact F02| | |exact Ep2| |exact He].
           -- unfold alloc1. sproj. exact Em1.
           -- unfold alloc1. sproj. exact Ef1.
           -- lia.
-        * intros Q w k. rewrite Hrc by auto. apply Rc.
+        * intros w k. rewrite Hrc. apply Rc.
     - (* embedded entries *)
       assert (L : chunk_result_ok st pos len (st_live st) MAX_EMBED_FCES r st').
       { eapply chunk_loop_spec with (arr := false);
@@ -1808,7 +1852,8 @@ Section Proofs.
         cbn [mode_inv]. splits.
         - rewrite N.sub_diag. reflexivity.
         - lia.
-        - intros _. split; intros; cbn [hc length]; lia.
+        - intros; cbn [hc length]; lia.
+        - intros; cbn [hc length]; lia.
         - cbn [length]. unfold MAX_EMBED_FCES. lia.
         - right. cbn [length]. lia. }
       destruct L as (F' & Hp' & L). split; [exact F'|]. split; [exact Hp'|].
@@ -1827,7 +1872,7 @@ Section Proofs.
   Lemma pread_spec st pos len r st' :
     wf st -> pread st pos len = (r, st') ->
     frame st st' /\ st_live st' = st_live st /\
-    (quiet st -> forall w k, rc w k st' = rc w k st) /\
+    (forall w k, rc w k st' = rc w k st) /\
     pread_result_ok st pos len [] r.
   Proof.
     intros W H. unfold fcache_pread in H.
@@ -1970,7 +2015,7 @@ Section Proofs.
         rewrite slice_length, N2Nat.id. splits; auto.
       + apply get_err_ok with (st := set_orc (m_st m) orc) (pos := pos);
           auto using frame_refl.
-        intros _ w. lia.
+        intros w. lia.
     - destruct (pread (set_orc (m_st m) orc) pos len) as [r1 st1] eqn:Ep.
       destruct (pread_spec _ _ _ _ _ (wf_set_orc _ orc W) Ep) as (_ & _ & _ & Hr).
       cbn [fst]. unfold pread_result_ok in Hr. destruct r1; auto. apply Hr.
@@ -2028,26 +2073,25 @@ Section Proofs.
 
   (** With everything released before the call, no mmap failure around, and
       room for the call's own entries, BUSY cannot happen. *)
-  Theorem fcache_never_busy_when_balanced m o :
+  Theorem fcache_never_busy_strong m o :
     reachable m ->
-    quiet (set_orc (m_st m) (op_oracle o)) ->
     (forall w, nr w (m_st m) = 0) ->
     (forall w, own_need o <= capw w (m_st m)) ->
     fst (step m o) <> OutErr ERR_BUSY.
   Proof.
-    intros R Q Hn Hc E. pose proof (fcache_beyond_eof m o R) as H. rewrite E in H.
+    intros R Hn Hc E. pose proof (fcache_beyond_eof m o R) as H. rewrite E in H.
     pose proof (Hn FB) as N1. pose proof (Hn MM) as N2.
     pose proof (Hc FB) as C1. pose proof (Hc MM) as C2.
     destruct o as [pos orc|h|pos len orc|pos len orc|pos len orc|h|p];
       cbn [outcome_ok op_oracle own_need] in *.
-    - specialize (H Q). unfold capw, nr in *. sproj. lia.
+    - cbn [op_err_ok] in H. unfold capw, nr in *. sproj. lia.
     - cbn [FcacheChunk.step] in E.
       destruct (nth_error (m_fces m) h) as [[f|]|]; discriminate.
-    - specialize (H Q). unfold capw, nr in *. sproj. lia.
-    - destruct H as [[H _]|H]; [discriminate|]. specialize (H Q).
+    - cbn [op_err_ok] in H. unfold capw, nr in *. sproj. lia.
+    - destruct H as [[H _]|H]; [discriminate|]. cbn [op_err_ok] in H.
       pose proof (own_extra_lt pos len) as Hx.
       unfold capw, nr in *. sproj. lia.
-    - destruct H as [[H _]|H]; [discriminate|]. specialize (H Q).
+    - destruct H as [[H _]|H]; [discriminate|]. cbn [op_err_ok] in H.
       pose proof (own_extra_lt pos len) as Hx.
       unfold capw, nr in *. sproj. lia.
     - cbn [FcacheChunk.step] in E.
@@ -2055,8 +2099,40 @@ Section Proofs.
     - discriminate.
   Qed.
 
+  (** the statement as first given (the [quiet] hypothesis is no longer needed:
+      since a failed mmap gives its reference back, see [fcache_never_busy_strong]) *)
+  Theorem fcache_never_busy_when_balanced m o :
+    reachable m ->
+    quiet (set_orc (m_st m) (op_oracle o)) ->
+    (forall w, nr w (m_st m) = 0) ->
+    (forall w, own_need o <= capw w (m_st m)) ->
+    fst (step m o) <> OutErr ERR_BUSY.
+  Proof. intros R _. now apply fcache_never_busy_strong. Qed.
+
   (** **** 3. Every path gives back the references (and allocations) it took,
-      as long as no mmap fails (see [fcache_mmap_failure_leaks_ref]). *)
+      also when an mmap fails (see [fcache_mmap_failure_releases_ref]). *)
+  Theorem fcache_refs_balanced_strong m o r m' :
+    reachable m ->
+    (match o with OpPread _ _ _ | OpChunk _ _ _ => True | _ => False end) ->
+    step m o = (r, m') ->
+    (forall w k, rc w k (m_st m') = rc w k (m_st m)) /\
+    st_live (m_st m') = st_live (m_st m) /\
+    m_fces m' = m_fces m /\ m_chunks m' = m_chunks m.
+  Proof.
+    intros R Ho H. pose proof (reachable_wf m R) as W.
+    destruct o as [pos orc|h|pos len orc|pos len orc|pos len orc|h|p]; try contradiction;
+      cbn [FcacheChunk.step op_oracle] in *.
+    - destruct (pread (set_orc (m_st m) orc) pos len) as [r1 st1] eqn:Ep.
+      destruct (pread_spec _ _ _ _ _ (wf_set_orc _ orc W) Ep) as (_ & L & Hrc & _).
+      injection H as <- <-. cbn [m_st m_fces m_chunks]. splits; auto.
+    - destruct (get_chunk (set_orc (m_st m) orc) pos len) as [c st1] eqn:Ec.
+      destruct (get_chunk_spec _ _ _ _ _ (wf_set_orc _ orc W) Ec) as (_ & _ & Hr).
+      destruct c as [c|s| | |]; try contradiction; injection H as <- <-;
+        cbn [m_st m_fces m_chunks]; destruct Hr as (_ & Hrc & L); splits; auto.
+  Qed.
+
+  (** the statement as first given (its [quiet] hypothesis, "no mmap failed",
+      is not needed any more: [fcache_refs_balanced_strong]) *)
   Theorem fcache_refs_balanced m o r m' :
     reachable m ->
     (match o with OpPread _ _ _ | OpChunk _ _ _ => True | _ => False end) ->
@@ -2065,27 +2141,14 @@ Section Proofs.
     (forall w k, rc w k (m_st m') = rc w k (m_st m)) /\
     st_live (m_st m') = st_live (m_st m) /\
     m_fces m' = m_fces m /\ m_chunks m' = m_chunks m.
-  Proof.
-    intros R Ho Q H. pose proof (reachable_wf m R) as W.
-    destruct o as [pos orc|h|pos len orc|pos len orc|pos len orc|h|p]; try contradiction;
-      cbn [FcacheChunk.step op_oracle] in *.
-    - destruct (pread (set_orc (m_st m) orc) pos len) as [r1 st1] eqn:Ep.
-      destruct (pread_spec _ _ _ _ _ (wf_set_orc _ orc W) Ep) as (_ & L & Hrc & _).
-      injection H as <- <-. cbn [m_st m_fces m_chunks]. splits; auto.
-      intros w k. now rewrite Hrc.
-    - destruct (get_chunk (set_orc (m_st m) orc) pos len) as [c st1] eqn:Ec.
-      destruct (get_chunk_spec _ _ _ _ _ (wf_set_orc _ orc W) Ec) as (_ & _ & Hr).
-      destruct c as [c|s| | |]; try contradiction; injection H as <- <-;
-        cbn [m_st m_fces m_chunks]; destruct Hr as (_ & Hrc & L); splits; auto;
-        intros w k; now rewrite Hrc.
-  Qed.
+  Proof. intros R Ho _. now apply fcache_refs_balanced_strong. Qed.
 
-  (** ... also when [fcache_get_chunk] fails: nothing is held afterwards *)
+  (** ... also when [fcache_get_chunk] fails, whatever failed: nothing is held afterwards *)
   Theorem fcache_failed_get_chunk_balanced st pos len s st' :
-    wf st -> quiet st -> get_chunk st pos len = (ChErr s, st') ->
+    wf st -> get_chunk st pos len = (ChErr s, st') ->
     (forall w k, rc w k st' = rc w k st) /\ st_live st' = st_live st.
   Proof.
-    intros W Q H. destruct (get_chunk_spec _ _ _ _ _ W H) as (_ & _ & _ & Hrc & L).
+    intros W H. destruct (get_chunk_spec _ _ _ _ _ W H) as (_ & _ & _ & Hrc & L).
     split; auto.
   Qed.
 
@@ -2170,6 +2233,51 @@ Section Proofs.
         intros w k. now rewrite R2.
   Qed.
 
+  (** operations that keep nothing: whatever their oracles say (mmap failures
+      included) the reference counts are what they were *)
+  Definition keeps_nothing (o : op) : Prop :=
+    match o with OpPread _ _ _ | OpChunk _ _ _ | OpPolicy _ => True | _ => False end.
+
+  Lemma keeps_nothing_run h : forall m outs m',
+    wf (m_st m) -> Forall keeps_nothing h -> run m h = (outs, m') ->
+    forall w k, rc w k (m_st m') = rc w k (m_st m).
+  Proof.
+    induction h as [|o h IH]; intros m outs m' W Hh H; cbn [FcacheChunk.run] in H.
+    - injection H as <- <-. auto.
+    - inversion Hh as [|? ? Ho Hh']; subst.
+      destruct (step m o) as [r m1] eqn:Es.
+      pose proof (step_wf _ _ _ _ W Es) as W1.
+      assert (R1 : forall w k, rc w k (m_st m1) = rc w k (m_st m)).
+      { destruct o as [pos orc|hd|pos len orc|pos len orc|pos len orc|hd|p]; try contradiction;
+          cbn [FcacheChunk.step] in Es.
+        - destruct (pread (set_orc (m_st m) orc) pos len) as [r1 st1] eqn:Ep.
+          destruct (pread_spec _ _ _ _ _ (wf_set_orc _ orc W) Ep) as (_ & _ & Hrc & _).
+          injection Es as <- <-. exact Hrc.
+        - destruct (get_chunk (set_orc (m_st m) orc) pos len) as [c st1] eqn:Ec.
+          destruct (get_chunk_spec _ _ _ _ _ (wf_set_orc _ orc W) Ec) as (_ & _ & Hr).
+          destruct c as [c|s| | |]; try contradiction; injection Es as <- <-;
+            cbn [m_st]; apply Hr.
+        - injection Es as <- <-. now intros [|]. }
+      destruct (crashed r).
+      + injection H as <- <-. exact R1.
+      + destruct (run m1 h) as [rs m2] eqn:Er. injection H as <- <-.
+        intros w k. rewrite (IH _ _ _ W1 Hh' Er). apply R1.
+  Qed.
+
+  (** after such a history nothing is referenced, whatever failed on the way *)
+  Corollary fcache_balanced_history_strong cap_mm cap_fb h outs m :
+    Forall keeps_nothing h -> run (init_machine cap_mm cap_fb) h = (outs, m) ->
+    (forall w, nr w (m_st m) = 0) /\
+    capw MM (m_st m) = cap_mm /\ capw FB (m_st m) = cap_fb.
+  Proof.
+    intros Hh H.
+    assert (W0 : wf (m_st (init_machine cap_mm cap_fb))) by apply wf_init.
+    pose proof (keeps_nothing_run h _ _ _ W0 Hh H) as R.
+    destruct (run_keeps h _ _ _ W0 H) as [W K]. split.
+    - intro w. rewrite (nr_ext _ _ W W0 R w). now destruct w.
+    - split; [apply (K MM)|apply (K FB)].
+  Qed.
+
   (** after a history of self-contained operations nothing is referenced, so
       [fcache_never_busy_when_balanced] applies to whatever call comes next *)
   Corollary fcache_balanced_history cap_mm cap_fb h outs m :
@@ -2224,26 +2332,31 @@ Example fcache_try_once_latch_visible_beyond_eof :
   fst (step 4 0 16 ex_file true m2 obs) = OutData [0] GEmpty.
 Proof. vm_compute. split; reflexivity. Qed.
 
-(** 3. The exception: when mmap fails, [fcache_get_mmap] inserts the entry and
-    returns without dropping its reference.  Here the read succeeds through
-    the fallback, the caller holds nothing, and one reference stays on the
-    MAP_FAILED entry for good. *)
-Example fcache_mmap_failure_leaks_ref :
+(** 3. When mmap fails, [fcache_get_mmap] caches MAP_FAILED and gives its
+    reference back at once (it used to keep it for good).  Here the read
+    succeeds through the fallback and nothing stays referenced. *)
+Example fcache_mmap_failure_releases_ref :
   let orc := mkOracle [] [true] [] [] [] in
   let '(r, m1) := step 4 0 16 ex_file true (init_machine 2 2) (OpPread 0 1 orc) in
   r = OutData [ex_file 0] GEmpty /\ m_fces m1 = [] /\ m_chunks m1 = [] /\
-  refcount 0 (st_mm (m_st m1)) = 1 /\ refsum (st_mm (m_st m1)) = 1.
+  refcount 0 (st_mm (m_st m1)) = 0 /\ refsum (st_mm (m_st m1)) = 0 /\
+  lookup 0 (s_ents (st_mm (m_st m1))) = Some (mkEntry 0 MapFailed 0).
 Proof. vm_compute. repeat split; reflexivity. Qed.
 
-(** ... and because that entry can never be evicted, the failure is remembered:
-    under ALWAYS a later call without any failure of its own still gets
-    ERR_SYSTEM (the [~ mm_clean] case of [excuse]). *)
+(** The cached MAP_FAILED still answers: under ALWAYS a later call without any
+    failure of its own gets ERR_SYSTEM (the [~ mm_clean] case of [excuse]) as
+    long as the replacement keeps the entry (here: the oracle [[false]] keeps
+    it, and the block is hit anyway) -- and once the replacement has dropped
+    it (a miss on another block with the oracle "drop"), the same call reads
+    the file. *)
 Example fcache_mmap_failure_is_sticky :
-  let orc := mkOracle [] [true] [] [] [] in
-  let m := snd (run 4 0 16 ex_file true (init_machine 2 2)
-                    [OpPolicy ALWAYS; OpPread 0 1 orc]) in
-  fst (step 4 0 16 ex_file true m (OpPread 0 1 no_oracle)) = OutErr ERR_SYSTEM.
-Proof. vm_compute. reflexivity. Qed.
+  let fail := mkOracle [] [true] [] [] [] in
+  let m := snd (run 4 0 32 ex_file true (init_machine 2 2)
+                    [OpPolicy ALWAYS; OpPread 0 1 fail]) in
+  let m' := snd (run 4 0 32 ex_file true m [OpPread 16 1 (mkOracle [[true]] [] [] [] [])]) in
+  fst (step 4 0 32 ex_file true m (OpPread 0 1 no_oracle)) = OutErr ERR_SYSTEM /\
+  fst (step 4 0 32 ex_file true m' (OpPread 0 1 no_oracle)) = OutData [ex_file 0] GEmpty.
+Proof. vm_compute. split; reflexivity. Qed.
 
 (** a history with held entries, a policy change and a multi-page chunk:
     the hypotheses of the theorems are met by non-trivial states *)
@@ -2269,4 +2382,7 @@ Print Assumptions fcache_refs_balanced.
 Print Assumptions fcache_failed_get_chunk_balanced.
 Print Assumptions fcache_no_crash.
 Print Assumptions fcache_unrepaired_sigbus.
-Print Assumptions fcache_mmap_failure_leaks_ref.
+Print Assumptions fcache_mmap_failure_releases_ref.
+Print Assumptions fcache_refs_balanced_strong.
+Print Assumptions fcache_never_busy_strong.
+Print Assumptions fcache_balanced_history_strong.
